@@ -1,5 +1,5 @@
 import FeatModel.Model.Proto
-import FeatModel.Model.LA.Chain
+import FeatModel.Model.LA.Alias
 /-! line-protocol driver for the C02 models (chains of conversion / clone / transpose / permute / rebuild);
     the line format is documented in harness/c02/main.cpp -/
 open FeatModel FeatModel.Proto FeatModel.LA
@@ -95,6 +95,36 @@ def opP : P (Option Op) := do
   | "dt" => pure (some .dt)
   | _ => pure none
 
+def modeP : P (Option CloneMode) := do
+  match (← nat) with
+  | 0 => pure (some .shallow)
+  | 1 => pure (some .layout)
+  | 2 => pure (some .weak)
+  | 3 => pure (some .deep)
+  | _ => pure none
+
+def fmtOf : String → Option Fmt
+  | "csr" => some .csr | "banded" => some .banded | "cscr" => some .cscr | "dense" => some .dense | "bcsr" => some .bcsr
+  | _ => none
+
+/-- operations with an aliased / pre-existing target; `none` = the token is not one of them -/
+def aopP (op : String) : P (Option (Option AOp)) := do
+  match op with
+  | "trs" => pure (some (some .trs))
+  | "trt" => let k ← nat; pure (some (some (.trt k)))
+  | "convs" => pure (some (some .convs))
+  | "convt" =>
+    let k ← nat; let f ← tok
+    pure (some ((fmtOf f).map (AOp.convt k)))
+  | "clones" => pure (some ((← modeP).map AOp.clones))
+  | "clonet" => let k ← nat; pure (some ((← modeP).map (AOp.clonet k)))
+  | "copys" => pure (some (some .copys))
+  | "copyt" => let k ← nat; pure (some (some (.copyt k)))
+  | _ => pure none
+
+/-- old content of a prepared target (the harness fills it with 7) -/
+def fill : Rat := 7
+
 /-- the aliasing observation printed in front of the dump of a clone / layout rebuild -/
 def prefixOf (m : Mat) : Op → String
   | .clone mode => showK m mode
@@ -104,13 +134,29 @@ def prefixOf (m : Mat) : Op → String
 def stepsP : Nat → Mat → String → P String
   | 0, _, acc => pure acc
   | n + 1, m, acc => do
-    match (← opP) with
-    | none => pure "BAD-OP"
-    | some o =>
-      match m.step o with
-      | .ok m' => stepsP n m' (acc ++ "| " ++ prefixOf m o ++ dump m' ++ " ")
+    let ts ← get
+    let name := ts.headD ""
+    match (← (do let _ ← tok; aopP name)) with
+    | some none => pure "BAD-OP"
+    | some (some a) =>
+      match m.stepAlias fill a with
+      | .ok t src =>
+        let pre := match a with
+          | .clonet _ mode => showK m mode
+          | _ => ""
+        stepsP n t (acc ++ "| " ++ pre ++ "S " ++ dump src ++ " " ++ dump t ++ " ")
+      | .self t => stepsP n t (acc ++ "| " ++ dump t ++ " ")
       | .abort => pure "ABORT"
       | .bad => pure "BAD-OP"
+    | none =>
+      set ts
+      match (← opP) with
+      | none => pure "BAD-OP"
+      | some o =>
+        match m.step o with
+        | .ok m' => stepsP n m' (acc ++ "| " ++ prefixOf m o ++ dump m' ++ " ")
+        | .abort => pure "ABORT"
+        | .bad => pure "BAD-OP"
 
 def handle : P String := do
   let it ← nat
